@@ -96,8 +96,12 @@ def one_dsir(case):
     G, labels = cases.build_graph(case["graph"])
     rows, hist, infectors = ref_discrete(case, labels)
     name = "discrete_SIR"
-    ra, _, _, _ = simcases.call(case, False, sim=SimRandom(SEEDED, seed=2))
-    rf, _, _, _ = simcases.call(case, True, sim=SimRandom(SEEDED, seed=2))
+    ra, _, _, ta = simcases.call(case, False, sim=SimRandom(SEEDED, seed=2))
+    rf, _, _, tf = simcases.call(case, True, sim=SimRandom(SEEDED, seed=2))
+    from eonsim import sweeps as _sw
+    bad = _sw.args_violation(case, ta) or _sw.args_violation(case, tf)
+    if bad:
+        return bad
     for r, mode in ((ra, "arrays"), (rf, "full-data")):
         if r.status == "exc":
             return [V("crash", "%s/exception/%s" % (name, type(r.exc).__name__), "%s mode: %s: %s" % (mode, type(r.exc).__name__, r.exc), case)]
